@@ -54,6 +54,7 @@ def main():
     if pats:
         muts = [m for m in muts if any(p in m[0] for p in pats)]
     summary = []
+    record = {}
     for name, patch, props in muts:
         tmp = tempfile.mkdtemp(prefix="eudoxia-mut-", dir="/tmp")
         try:
@@ -76,6 +77,7 @@ def main():
                                    stdout=subprocess.PIPE, stderr=subprocess.STDOUT, text=True)
                 kinds = [l.strip()[:110] for l in c.stdout.splitlines() if l.startswith("  [")]
                 line += f" {p}=exit{c.returncode}"
+                record.setdefault(name, {})[p] = {"exit": c.returncode, "kinds": sorted({k.split("]")[0].strip("[ ") for k in kinds})}
                 if c.returncode == 1:
                     caught.append(p)
                     line += f" {kinds[:2]}"
@@ -86,6 +88,12 @@ def main():
         finally:
             shutil.rmtree(tmp, ignore_errors=True)
     print("\n".join(f"{s:8s} {n}" for n, s in summary))
+    if os.environ.get("MUTANT_RESULTS"):
+        old = {}
+        if os.path.exists(os.environ["MUTANT_RESULTS"]):
+            old = json.load(open(os.environ["MUTANT_RESULTS"]))
+        old.update(record)
+        json.dump(old, open(os.environ["MUTANT_RESULTS"], "w"), indent=1, sort_keys=True)
     return 0 if all(s == "CAUGHT" for _, s in summary) else 1
 
 
